@@ -467,6 +467,11 @@ start:
 				if !ok {
 					continue
 				}
+				if binop.Op != token.EQL && binop.Op != token.NEQ {
+					// Ordered comparisons tell us nothing about nilness. Their operands can still be
+					// constants without a value: the zero value of a type parameter is one.
+					continue
+				}
 				isNil := func(v ir.Value) bool {
 					k, ok := v.(*ir.Const)
 					if !ok {
